@@ -157,6 +157,7 @@ def greedy_exact(w, cur_obs, v):
     on an examined pair differs from the exact one"""
     kept = [cur_obs[0]]
     near = False
+    ties = 0
     for x in cur_obs[1:]:
         p = kept[-1]
         dt_us = x[1] - p[1]
@@ -166,9 +167,11 @@ def greedy_exact(w, cur_obs, v):
         ok = exact_speed_ok(dx, dt_us, v)
         if ok != float_speed_ok(dx, dt_us, v):
             near = True
+        if dx != 0 and Fraction(dx) / Fraction(dt_us, SEC) == Fraction(v):
+            ties += 1
         if ok:
             kept.append(x)
-    return [k[0] for k in kept], near
+    return [k[0] for k in kept], near, ties
 
 
 def run_case(spec):
@@ -181,7 +184,7 @@ def run_case(spec):
         w.register(sh)
         shapes.append(sh)
     raws = [raw_lit(w, sh, w.idmap[id(sh)]) for sh in shapes]
-    fails, stats = [], {'near_ties': 0, 'steps': 0, 'classes': []}
+    fails, stats = [], {'near_ties': 0, 'exact_ties': 0, 'merged': 0, 'steps': 0, 'classes': []}
     r0 = guarded(lambda: Track(list(shapes)))
     first = res_ids(w, r0)
     meta = {'spec': spec, 'first': first, 'steps': []}
@@ -285,6 +288,7 @@ def run_case(spec):
                         if w.idmap[id(x)] < 0:
                             news.append(w.obs(x))
                     news_lit = listlit([item_lit(o) for o in news])
+                    stats['merged'] += len(news)
                     out_obs = [w.obs(x) for x in r[1].geoshapes]
                     keys_in = [(o[1], o[2]) for o in cur_obs]
                     keys_out = [(o[1], o[2]) for o in out_obs]
@@ -299,10 +303,11 @@ def run_case(spec):
                 v = op[1]
                 has_fij = True
                 if cur_obs:
-                    exp_ids, near = greedy_exact(w, cur_obs, v)
+                    exp_ids, near, ties = greedy_exact(w, cur_obs, v)
                     if near:
                         stats['near_ties'] += 1
                         continue        # excluded: float and exact decisions differ on an examined pair
+                    stats['exact_ties'] += ties
                     exp = ('Ok', exp_ids)
                 else:
                     exp = ('Err', 'IndexError')
@@ -488,6 +493,18 @@ def main():
         pairs = [(rng.choice(bs), rng.choice(bs)) for _ in range(40)] + [(None, None)] + \
                 [(None, rng.choice(bs)) for _ in range(5)] + [(rng.choice(bs), None) for _ in range(5)]
         specs.append(('slice-sweep', {'items': items, 'ops': [['slice', a, b, 'utc', 0] for a, b in pairs]}))
+    # B2. time-filter sweeps: instants / intervals / time-of-day windows at and around every event
+    for _ in range(40 if quick else 600):
+        items = gen_items(rng, rng.randint(1, 6))
+        ev = events(items)
+        around = sorted({e + d for e in ev for d in (-1, 0, 1)})
+        ops = [['fdt', t, rng.choice(['utc', 'naive', 120]), 0] for t in around]
+        ivs = [(a, b) for a in around for b in around if a <= b]
+        ops += [['fiv', a, b, rng.choice(['utc', 'naive', -330]), 0] for a, b in (ivs if len(ivs) <= 80 else rng.sample(ivs, 80))]
+        tods = sorted({(it[k] + off_us(it[o]) + d) % DAY for it in items for k, o in (('st', 'so'), ('en', 'eo')) for d in (-1, 0, 1)})
+        tp = [(a, b) for a in tods for b in tods]
+        ops += [['ftime', a, b, 0] for a, b in (tp if len(tp) <= 80 else rng.sample(tp, 80))]
+        specs.append(('time-filter-sweep', {'items': items, 'ops': ops}))
     # C. speed-limit sweeps
     for _ in range(120 if quick else 2500):
         items = gen_items(rng, rng.choice([2, 3, 4, 5, 6, 8, 12, 20, 30]))
@@ -509,7 +526,7 @@ def main():
                                                  ['add', gen_items(rng, 3), 1], ['fij', 5.0, 1]]}))
 
     cases, meta, failing = [], [], {}
-    near = steps = 0
+    near = steps = ties = merged = 0
     distinct = set()
     for cls, spec in specs:
         lit, m, fails, stats = run_case(spec)
@@ -519,6 +536,8 @@ def main():
         if fails:
             failing[len(cases) - 1] = fails
         near += stats['near_ties']
+        ties += stats['exact_ties']
+        merged += stats['merged']
         steps += stats['steps']
         ck.count(cls)
         for c in stats['classes']:
@@ -535,6 +554,8 @@ def main():
     ck.cov['operation_results_compared'] = steps
     ck.cov['distinct_nontrivial'] = len(distinct)
     ck.cov['near_ties_excluded'] = near
+    ck.cov['exact_speed_ties_examined'] = ties
+    ck.cov['pings_created_by_convolve'] = merged
     for i in (0, len(cases) // 3, len(cases) - 50):
         ck.sample(cases[max(0, min(i, len(cases) - 1))][:1500])
 
